@@ -288,6 +288,24 @@ def reset_hooks():
 # --------------------------------------------------------------------------------------
 
 
+def _is_int_dtype(dt):
+    try:
+        return dt in (int, np.int_, np.int8, np.int16, np.int32, np.int64, np.intp, np.uint8, np.uint16, np.uint32, np.uint64) or np.dtype(dt).kind in "iu"
+    except TypeError:
+        return False
+
+
+def _trunc(e):
+    """conversion of a real to an integer type: truncation toward zero"""
+    e = num(e)
+    if e.is_integer:
+        return e
+    if e.is_nonnegative:
+        return sp.floor(e)
+    return Ite(sp.Ge(e, 0), sp.floor(e), sp.ceiling(e))
+
+
+
 class S:
     """symbolic scalar.  kind 'py' = a Python number (float division raises ZeroDivisionError),
     'np' = a numpy scalar (division by zero gives inf/nan, a definedness condition)."""
@@ -485,7 +503,11 @@ class S:
     def copy(self):
         return S(self.e, self.kind)
 
-    def astype(self, *a, **k):
+    def astype(self, dt=None, *a, **k):
+        if dt in (bool, np.bool_):
+            return S(boo(self.e), self.kind)
+        if dt is not None and _is_int_dtype(dt):
+            return S(_trunc(self.e), self.kind)
         return self
 
 
@@ -699,6 +721,8 @@ class A:
     def astype(self, dt, *a, **k):
         if dt in (bool, np.bool_):
             return A(self.axes, boo(self.e), self.dom)
+        if _is_int_dtype(dt):
+            return A(self.axes, _trunc(self.e), self.dom)  # integer conversion truncates toward zero
         return A(self.axes, num(self.e), self.dom)
 
     def isbool(self):
@@ -1382,7 +1406,11 @@ class EA:
     def copy(self):
         return EA(self.a.copy())
 
-    def astype(self, *a, **k):
+    def astype(self, dt=None, *a, **k):
+        if dt is not None and _is_int_dtype(dt):
+            return EA(np.frompyfunc(lambda q: S(_trunc(_lift_s(q).e)), 1, 1)(self.a))
+        if dt in (bool, np.bool_):
+            return EA(np.frompyfunc(lambda q: S(boo(_lift_s(q).e)), 1, 1)(self.a))
         return EA(self.a.copy())
 
     def _other(self, o):
